@@ -38,13 +38,13 @@ Theorem C10_page_aligned_alloc : forall s length_blk mx, Inv s -> WF s -> 0 < le
 Proof. exact blk_allocate_aligned_spec. Qed.
 Print Assumptions C10_page_aligned_alloc.
 
-(* IWFSM_SOLID_ALLOCATED_SPACE: every state, every flag combination, over-allocation and bitmap growth included (no
-   _partial here): the whole RETURNED region [a, a+l) lies inside the file.  The two hypotheses on a + l exclude the
-   64-bit wrap of the size computation (they hold for < 2^32 blocks of < 2^31 bytes). *)
-Theorem C10_solid_backed : forall s len addr opts ovr, WF s ->
+(* IWFSM_SOLID_ALLOCATED_SPACE: every state, every flag combination, over-allocation, bitmap growth and a file size
+   limit (exfile maxoff) included (no _partial, no hypothesis on the state or on the sizes): whenever allocate returns 0
+   the whole RETURNED region [a, a+l) lies inside the file. *)
+Theorem C10_solid_backed : forall s len addr opts ovr,
   has opts IWFSM_SOLID_ALLOCATED_SPACE = true ->
   let '(rc, s', a, l) := allocate s len addr opts ovr in
-  rc = 0 -> 0 <= a + l -> a + l + aunit s < 2 ^ 64 -> a + l <= fsize s' /\ bpow s' = bpow s /\ aunit s' = aunit s.
+  rc = 0 -> a + l <= fsize s' /\ bpow s' = bpow s /\ aunit s' = aunit s.
 Proof. exact allocate_solid_backed. Qed.
 Print Assumptions C10_solid_backed.
 (* ... on a history where the over-allocated tail starts a new page behind the end of the file: 60 blocks asked, 64 returned
@@ -55,21 +55,21 @@ Example C10_solid_backed_overallocated : WF solid_witness_state /\ fsize solid_w
 Proof. exact solid_witness. Qed.
 
 Theorem C10_release_exact : forall s addr len, Good s ->
-  live_range s (shr addr (bpow s)) (shr len (bpow s)) ->
+  live_range s (blk_of s addr) (blk_of s len) ->
   let '(rc, s') := deallocate s addr len in
   Good s' /\ same_cfg s s' /\
-  (s' = s \/ (rc = 0 /\ bm s' = set_range (bm s) (shr addr (bpow s)) (shr len (bpow s)) false)).
+  (s' = s \/ (rc = 0 /\ bm s' = set_range (bm s) (blk_of s addr) (blk_of s len) false)).
 Proof. exact deallocate_good. Qed.
 Print Assumptions C10_release_exact.
 
 Theorem C10_reallocate_good : forall s nlen addr olen opts ovr, Good s -> has opts IWFSM_ALLOC_NO_EXTEND = true ->
-  0 <= nlen < 2 ^ 62 -> live_range s (shr addr (bpow s)) (shr olen (bpow s)) ->
+  0 <= nlen < 2 ^ 62 -> live_range s (blk_of s addr) (blk_of s olen) ->
   Good (state_of (reallocate s nlen addr olen opts ovr)) /\ same_cfg s (state_of (reallocate s nlen addr olen opts ovr)).
 Proof. exact reallocate_good. Qed.
 Print Assumptions C10_reallocate_good.
 
 Theorem C10_invalid_release_refused : forall s addr len,
-  negb (Z.land addr (blkmask s) =? 0) = true \/ touches_meta s (shr addr (bpow s)) (shr len (bpow s)) = true ->
+  negb (Z.land addr (blkmask s) =? 0) = true \/ touches_meta s (blk_of s addr) (blk_of s len) = true ->
   fst (deallocate s addr len) <> 0 /\ snd (deallocate s addr len) = s.
 Proof. exact deallocate_refuses. Qed.
 Print Assumptions C10_invalid_release_refused.
@@ -86,7 +86,7 @@ Print Assumptions C10_range_guard_exact.
 (* ... so a release whose range ends behind the last block the bitmap describes (starting inside, at the end or beyond;
    aligned or not; strict or not; every variant of the code) is refused and NOTHING changes: bitmap, free-extent tree,
    cache, geometry, file size, counters, header *)
-Theorem C10_release_beyond_end_refused : forall s addr len, nbits s < shr addr (bpow s) + shr len (bpow s) ->
+Theorem C10_release_beyond_end_refused : forall s addr len, nbits s < blk_of s addr + blk_of s len ->
   fst (deallocate s addr len) <> 0 /\ snd (deallocate s addr len) = s.
 Proof. exact release_beyond_end_refused. Qed.
 Print Assumptions C10_release_beyond_end_refused.
@@ -94,13 +94,13 @@ Print Assumptions C10_release_beyond_end_refused.
 (* the shrinking branch of reallocate releases [addr + new length, addr + old length): same refusal, same "nothing changes" *)
 Theorem C10_shrink_beyond_end_refused : forall s nlen addr olen opts ovr,
   Z.land addr (blkmask s) = 0 -> Z.land olen (blkmask s) = 0 ->
-  shr (IW_ROUNDUP nlen (pow2 (bpow s))) (bpow s) < shr olen (bpow s) ->
-  nbits s < shr addr (bpow s) + shr olen (bpow s) ->
+  shr (IW_ROUNDUP nlen (pow2 (bpow s))) (bpow s) < blk_of s olen ->
+  nbits s < blk_of s addr + blk_of s olen ->
   let '(rc, s', a, l) := reallocate s nlen addr olen opts ovr in rc <> 0 /\ s' = s /\ a = addr /\ l = olen.
 Proof. exact shrink_beyond_end_refused. Qed.
 Print Assumptions C10_shrink_beyond_end_refused.
 
-Theorem C10_status_beyond_end_refused : forall s addr len al, nbits s < shr addr (bpow s) + shr len (bpow s) ->
+Theorem C10_status_beyond_end_refused : forall s addr len al, nbits s < blk_of s addr + blk_of s len ->
   check_allocation_status s addr len al <> 0.
 Proof. exact status_beyond_end_refused. Qed.
 Print Assumptions C10_status_beyond_end_refused.
@@ -131,12 +131,12 @@ Proof. exact strict_release_refused_refuted. Qed.
 Print Assumptions C10_strict_release_refused_refuted.
 
 (* releases of less than one block: refused after fixes/fsm-dealloc-short.diff, accepted (rc 0, empty extent in the tree) before *)
-Theorem C10_short_release_refused : forall s addr len, fx_short (vr s) = true -> shr len (bpow s) < 1 ->
+Theorem C10_short_release_refused : forall s addr len, fx_short (vr s) = true -> blk_of s len < 1 ->
   fst (deallocate s addr len) <> 0 /\ snd (deallocate s addr len) = s.
 Proof. exact short_release_refused. Qed.
 Print Assumptions C10_short_release_refused.
-Theorem C10_short_release_refused_refuted : exists s addr len, shr len (bpow s) < 1 /\
-  fst (deallocate s addr len) = 0 /\ In (0, shr addr (bpow s)) (tree (snd (deallocate s addr len))).
+Theorem C10_short_release_refused_refuted : exists s addr len, blk_of s len < 1 /\
+  fst (deallocate s addr len) = 0 /\ In (0, blk_of s addr) (tree (snd (deallocate s addr len))).
 Proof. exact short_release_refused_refuted. Qed.
 Print Assumptions C10_short_release_refused_refuted.
 
